@@ -37,6 +37,42 @@ def kwarg(c, name, pos=None):
     return None
 
 
+def local_env2(fn):
+    """iface.local_env plus parallel assignments `a, b = x, y` (each name receives the element at its position) and
+    conditional expressions over tuples `a, b = (x, y) if c else (u, v)`."""
+    env = local_env(fn)
+    extra = {}
+    spoiled = set()
+
+    def tuples(v):
+        if isinstance(v, (ast.Tuple, ast.List)):
+            return [v]
+        if isinstance(v, ast.IfExp):
+            a, b = tuples(v.body), tuples(v.orelse)
+            return a + b if a and b else []
+        return []
+    for n in walk_no_nested(fn):
+        if isinstance(n, ast.Assign):
+            for t in n.targets:
+                if isinstance(t, (ast.Tuple, ast.List)) and all(isinstance(x, ast.Name) for x in t.elts):
+                    vs = tuples(n.value)
+                    if vs and all(len(v.elts) == len(t.elts) for v in vs):
+                        for i, x in enumerate(t.elts):
+                            extra.setdefault(x.id, []).extend(v.elts[i] for v in vs)
+                    else:
+                        spoiled |= {x.id for x in t.elts}
+    params = {a.arg for a in fn.args.args + fn.args.kwonlyargs}
+    single = {n.targets[0].id for n in walk_no_nested(fn) if isinstance(n, ast.Assign) and len(n.targets) == 1 and isinstance(n.targets[0], ast.Name)}
+    loopvars = {x.id for n in walk_no_nested(fn) if isinstance(n, (ast.For, ast.comprehension)) for x in ast.walk(n.target) if isinstance(x, ast.Name)}
+    for name, vals in extra.items():
+        if name in spoiled or name in params or name in loopvars:
+            continue
+        if name in single and name not in env:
+            continue            # also assigned in a way local_env rejected
+        env[name] = list(env.get(name, [])) + vals
+    return env
+
+
 def facts_of(state):
     return [(f[1], f[2]) for f in state if isinstance(f, tuple) and len(f) == 4 and f[0] == '?']
 
